@@ -10,7 +10,7 @@
    preimage of a completed part, N2 'failed' WITHOUT warning only when no part is pending or complete,
    N3 an error reply means the command is not running. Results: POk p (Ok), PNone (Err, final),
    PErr (Err because a list/wait RPC failed: known-finding class kf_read_error, KF-B). *)
-From Tramp Require Import Model.Base Model.Node Model.Provider Model.ProviderSys Proofs.ProviderProofs.
+From Tramp Require Import Model.Base Model.Node Model.Provider Model.ProviderSys Proofs.ProviderProofs Proofs.ProviderTyped.
 
 Theorem C16_pay : forall (parts0 : list pstat) (b : list N) (a : option N) (f d rt : N) (evs : list pevent),
   hist_ok (pay_init parts0 (QPay b a f d rt)) evs = true ->
@@ -28,20 +28,27 @@ Qed.
 
 (* PErr (an Err that is not known to be final) arises only from a reply that is not the answer the query
    asks for — in the node model that is exactly an injected error (YErr) *)
-Definition answers (w : waitst) (y : reply) : bool :=
-  match w, y with
-  | WListP _, YPids _ | WListD _ _, YPres _ | WParts _, YPre _ | WParts _, YPartFailed => true
-  | _, _ => false
-  end.
 Theorem C16_err_only_from_read_error : forall base w cid y cancel,
   wait_deliver base w cid y = Some (WFin WErr cancel) -> answers w y = false.
+Proof. exact wait_err_not_answer. Qed.
+
+(* ... and over whole histories: when the contract holds and NO read RPC (listsendpays, waitsendpay) is answered with an error,
+   the wrapper never returns an Err of unknown finality — every failure it reports is final: no part pending or complete, no
+   pay command running. This closes C16 outside the known-finding class kf_read_error. *)
+Theorem C16_failure_is_final_without_read_errors : forall (parts0 : list pstat) (b : list N) (a : option N) (f d rt : N) (evs : list pevent),
+  hist_ok (pay_init parts0 (QPay b a f d rt)) evs = true ->
+  hist_clean (pay_init parts0 (QPay b a f d rt)) evs = true ->
+  let s := prun (pay_init parts0 (QPay b a f d rt)) evs in
+  forall r, ps_st s = SFin r ->
+  match r with
+  | POk p => In (PDone p) (parts (ps_nd s))
+  | PNone | PErr => (forall i st, nth_error (parts (ps_nd s)) i = Some st -> st = PFailed) /\ payrun (ps_nd s) = 0
+  end.
 Proof.
-  intros base w cid y cancel H. destruct w as [k|k l|aw]; cbn in H.
-  - destruct (negb (Nat.eqb k cid)); [discriminate|]. destruct y; inversion H; reflexivity.
-  - destruct (negb (Nat.eqb k cid)); [discriminate|]. destruct y as [| | | |[|p l']| | | |]; try (inversion H; reflexivity).
-    destruct l; inversion H.
-  - destruct (negb (existsb _ aw)); [discriminate|]. destruct y; try (inversion H; reflexivity).
-    destruct (filter _ aw); inversion H.
+  intros parts0 b a f d rt evs Hok Hcl s r Hr.
+  pose proof (C16_pay parts0 b a f d rt evs Hok r Hr) as H.
+  destruct r; [exact H|exact H|].
+  exfalso. exact (pay_no_read_error_no_PErr parts0 b a f d rt evs Hok Hcl Hr).
 Qed.
 
 (* the contract boundary: without N2 the statement is false of the code (it returns Err without looking) *)
